@@ -751,9 +751,20 @@ fn dump_crate<'tcx>(tcx: TyCtxt<'tcx>, name: &str) -> J {
     let mut bodies = Vec::new();
     let mut consts = Vec::new();
     let mut unsafes = Vec::new();
+    // VP_FILTER: comma separated substrings; when set only bodies whose key contains one of
+    // them are dumped (used for large dependency crates)
+    let filter: Vec<String> = std::env::var("VP_FILTER")
+        .map(|s| s.split(',').filter(|x| !x.is_empty()).map(|x| x.to_string()).collect())
+        .unwrap_or_default();
     for did in tcx.hir_body_owners() {
         let gdid = did.to_def_id();
         let kind = tcx.def_kind(gdid);
+        if !filter.is_empty() {
+            let k = stable_key(tcx, gdid);
+            if !filter.iter().any(|f| k.contains(f.as_str())) {
+                continue;
+            }
+        }
         match kind {
             DefKind::Fn | DefKind::AssocFn | DefKind::Closure => {
                 bodies.push(dump_body(tcx, did));
@@ -791,6 +802,9 @@ fn dump_crate<'tcx>(tcx: TyCtxt<'tcx>, name: &str) -> J {
     let mut impls = Vec::new();
     let mut unsafe_impls = Vec::new();
     for ldid in tcx.hir_crate_items(()).definitions() {
+        if !filter.is_empty() {
+            break;
+        }
         let gdid = ldid.to_def_id();
         match tcx.def_kind(gdid) {
             DefKind::Struct | DefKind::Enum | DefKind::Union => {
